@@ -91,6 +91,16 @@ fn check<S: batch::Scenario>(sc: &S, env: &batch::Env) -> i32 {
     batch::exit_of(&[&r1, &r2])
 }
 
+fn check_c06(env: &batch::Env) -> i32 {
+    use batch::Scenario;
+    let r1 = batch::run_batch(&c06::C06, env, env.runs_override.unwrap_or_else(|| c06::C06.runs(env.tier)));
+    let r2 = batch::run_batch(&c06::Decode1090Pos, env, batch::extra_runs(c06::Decode1090Pos.runs(env.tier), "VERIF_PROC_RUNS"));
+    let pl = pipeline::Pipeline { prop: "C06" };
+    let r3 = batch::run_batch(&pl, env, batch::extra_runs(pl.runs(env.tier), "VERIF_PIPELINE_RUNS"));
+    batch::write_evidence(env, "C06", &r1, &[("decode1090_process", &r2), ("pipeline", &r3)]);
+    batch::exit_of(&[&r1, &r2, &r3])
+}
+
 fn check_c10(env: &batch::Env) -> i32 {
     use batch::Scenario;
     let r1 = batch::run_batch(&c10::C10, env, env.runs_override.unwrap_or_else(|| c10::C10.runs(env.tier)));
@@ -115,7 +125,7 @@ fn verif_entry() {
     let kind = if cmd == "replay" { replay_kind() } else { std::env::var("VERIF_SCENARIO").unwrap_or_else(|_| "focused".to_string()) };
     let code = if cmd == "check" {
         match prop.as_str() {
-            "C06" => check(&c06::C06, &env),
+            "C06" => check_c06(&env),
             "C09" => check(&c09::C09, &env),
             "C10" => check_c10(&env),
             "C12" => check(&c12::C12, &env),
@@ -131,6 +141,7 @@ fn verif_entry() {
             ("C09", "focused") => replay_or_det(&c09::C09, &cmd, &env),
             ("C10", "focused") => replay_or_det(&c10::C10, &cmd, &env),
             ("C10", "decode1090") => replay_or_det(&c10::Decode1090Proc, &cmd, &env),
+            ("C06", "decode1090") => replay_or_det(&c06::Decode1090Pos, &cmd, &env),
             ("C12", "focused") => replay_or_det(&c12::C12, &cmd, &env),
             ("C17", "focused") => replay_or_det(&c17::C17, &cmd, &env),
             ("C06", "pipeline") => replay_or_det(&pipeline::Pipeline { prop: "C06" }, &cmd, &env),
